@@ -333,75 +333,108 @@ func ruleR17_4(w *World, r *Report) {
 		r.Lost("package server/mongodb")
 		return
 	}
-	tableOf := map[string]string{"operations": "schema.OperationDocFields", "snapshots": "schema.SnapshotDocFields", "datatypes": "schema.DatatypeDocFields", "clients": "schema.ClientDocFields"}
+	tableOf := map[string]string{"operations": "OperationDocFields", "snapshots": "SnapshotDocFields", "datatypes": "DatatypeDocFields", "clients": "ClientDocFields"}
 	n := 0
-	for _, f := range p.Syntax {
-		if isTestFile(u.Fset, f.Pos()) {
+	for _, root := range u.ordaFuncs(func(pp string) bool { return pp == pMongo }) {
+		if flattenable[root] || root.Parent() != nil || !strings.HasPrefix(strings.ToLower(root.Name()), "purge") {
 			continue
 		}
-		for _, d := range f.Decls {
-			fd, ok := d.(*ast.FuncDecl)
-			if !ok || fd.Body == nil || !strings.HasPrefix(strings.ToLower(fd.Name.Name), "purge") {
-				continue
+		// the deletes of the purge function and of the new helpers it calls, each helper read once per call site with
+		// the arguments passed there
+		var scan func(g *ssa.Function, env map[ssa.Value]ssa.Value, depth int)
+		subst := func(v ssa.Value, env map[ssa.Value]ssa.Value) ssa.Value {
+			for k := 0; k < 6; k++ {
+				if w2, ok := env[v]; ok {
+					v = w2
+					continue
+				}
+				break
 			}
-			// filter variables: name -> clauses
-			filters := map[string]map[string]string{}
-			ast.Inspect(fd.Body, func(node ast.Node) bool {
-				as, ok := node.(*ast.AssignStmt)
-				if !ok || len(as.Lhs) != 1 || len(as.Rhs) != 1 {
-					return true
-				}
-				id, ok := as.Lhs[0].(*ast.Ident)
+			return v
+		}
+		scan = func(g *ssa.Function, env map[ssa.Value]ssa.Value, depth int) {
+			forEachOwnInstr(g, func(in ssa.Instruction) {
+				call, ok := in.(*ssa.Call)
 				if !ok {
-					return true
+					return
 				}
-				cl := map[string]string{}
-				ast.Inspect(as.Rhs[0], func(m ast.Node) bool {
-					if c, ok := m.(*ast.CallExpr); ok {
-						if sel, ok := c.Fun.(*ast.SelectorExpr); ok && sel.Sel.Name == "AddFilterEQ" && len(c.Args) == 2 {
-							cl[exprString(c.Args[0])] = exprString(c.Args[1])
+				if h := call.Call.StaticCallee(); h != nil && flattenable[h] && depth < 4 {
+					env2 := map[ssa.Value]ssa.Value{}
+					for k, v := range env {
+						env2[k] = v
+					}
+					for i, prm := range h.Params {
+						if i < len(call.Call.Args) {
+							env2[prm] = subst(call.Call.Args[i], env)
 						}
 					}
-					return true
-				})
-				if len(cl) > 0 {
-					filters[id.Name] = cl
+					scan(h, env2, depth+1)
+					return
 				}
-				return true
-			})
-			ast.Inspect(fd.Body, func(node ast.Node) bool {
-				c, ok := node.(*ast.CallExpr)
-				if !ok {
-					return true
+				name := calleeName(call)
+				if (name != "DeleteMany" && name != "DeleteOne") || len(call.Call.Args) < 3 {
+					return
 				}
-				sel, ok := c.Fun.(*ast.SelectorExpr)
-				if !ok || (sel.Sel.Name != "DeleteMany" && sel.Sel.Name != "DeleteOne") || len(c.Args) < 2 {
-					return true
+				recv := subst(call.Call.Args[0], env)
+				collName := ""
+				if ld, isLd := recv.(*ssa.UnOp); isLd {
+					if fa, isFA := ld.X.(*ssa.FieldAddr); isFA {
+						collName = fieldName(fa.X.Type(), fa.Field)
+						if k := strings.LastIndex(collName, "."); k >= 0 {
+							collName = collName[k+1:]
+						}
+					}
 				}
-				coll, ok := sel.X.(*ast.SelectorExpr)
-				if !ok {
-					return true
-				}
-				table, shared := tableOf[coll.Sel.Name]
+				table, shared := tableOf[collName]
 				if !shared {
-					return true
+					return
 				}
-				// only collection-wide purges (not the per-datatype delete by id inside PurgeDatatype)
-				fid, _ := c.Args[1].(*ast.Ident)
-				var cl map[string]string
-				if fid != nil {
-					cl = filters[fid.Name]
+				// the clauses of the filter: the AddFilterEQ chain behind the filter argument
+				cl := map[string]ssa.Value{}
+				var chain func(v ssa.Value, d int)
+				chain = func(v ssa.Value, d int) {
+					v = stripIface(subst(v, env))
+					c2, isCall := v.(*ssa.Call)
+					if !isCall || d > 8 {
+						return
+					}
+					a := c2.Call.Args
+					if calleeName(c2) == "AddFilterEQ" && len(a) >= 3 {
+						cl[canonName(subst(a[len(a)-2], env))] = stripIface(subst(stripIface(a[len(a)-1]), env))
+					}
+					if len(a) > 0 {
+						chain(a[0], d+1)
+					}
 				}
-				cons := fd.Name.Name + "/" + sel.Sel.Name + " on " + coll.Sel.Name
-				if _, byID := cl[table+".DUID"]; byID && sel.Sel.Name == "DeleteOne" {
-					return true
+				chain(call.Call.Args[2], 0)
+				cons := root.Name() + "/" + name + " on " + collName
+				byID := false
+				for k := range cl {
+					if strings.HasSuffix(k, table+".DUID") {
+						byID = true
+					}
+				}
+				if byID && name == "DeleteOne" {
+					return // the per-datatype delete by id inside PurgeDatatype
 				}
 				n++
-				val, has := cl[table+".CollectionNum"]
-				r.Check(has && val == "collectionNum", cons, u.Pos(c.Pos()), table+".CollectionNum == collectionNum", fmt.Sprintf("the purge filters %v; expected the collection-number field of the documents stored in %q with the collectionNum parameter (a wrong field or value deletes another collection's documents, or nothing)", cl, coll.Sel.Name))
-				return true
+				var val ssa.Value
+				var shown []string
+				for k, v := range cl {
+					shown = append(shown, k+"="+exprName(v))
+					if strings.HasSuffix(k, table+".CollectionNum") {
+						val = v
+					}
+				}
+				sort.Strings(shown)
+				good := false
+				if prm, isP := val.(*ssa.Parameter); isP && prm.Parent() == root && prm.Name() == "collectionNum" {
+					good = true
+				}
+				r.Check(good, cons, u.Pos(call.Pos()), table+".CollectionNum == collectionNum", fmt.Sprintf("the purge filters %v; expected the collection-number field of the documents stored in %q with the collectionNum parameter (a wrong field or value deletes another collection's documents, or nothing)", shown, collName))
 			})
 		}
+		scan(root, map[ssa.Value]ssa.Value{}, 0)
 	}
 	if n < 5 {
 		r.Lost(fmt.Sprintf("purges of shared collections (found %d)", n))
